@@ -43,6 +43,8 @@ var vfWaitBroken atomic.Bool
 
 var vfStuck atomic.Bool
 
+var vfLeakReports atomic.Int32
+
 func vfSkipIfStuck(c *kit.Case) bool {
 	if vfStuck.Load() {
 		c.Inconclusive("skipped: an earlier interceptor call in this process never returned")
@@ -455,6 +457,10 @@ func vfCensus(c *kit.Case) {
 	if vfStuck.Load() {
 		return // an unjoined interceptor call is reported as inconclusive, not as a leak
 	}
+	if vfLeakReports.Load() >= 3 {
+		c.Obs("zs_census_skipped_after_leak_reports", 1)
+		return
+	}
 	for i := 0; i < 2000 && len(kit.LabelledGoroutines(c.ID)) != 0; i++ {
 		time.Sleep(time.Millisecond)
 	}
@@ -462,6 +468,9 @@ func vfCensus(c *kit.Case) {
 	if !conclusive {
 		c.Inconclusive("goroutine census did not stabilise")
 		return
+	}
+	if len(leaked) > 0 {
+		vfLeakReports.Add(1)
 	}
 	for _, g := range leaked {
 		vfViol(c, "leak", vfLeakKey(g.Stack), fmt.Sprintf("%d goroutine(s) still parked with an identical stack after the handler returned", g.Count), map[string]any{"stack": g.Stack})
